@@ -55,6 +55,7 @@ func (p *Params) Knob(name string, def int) int {
 type Record struct {
 	Prop     string         `json:"prop"`
 	Index    uint64         `json:"idx"`
+	First    uint64         `json:"first"` // first run index executed by this worker process
 	Seed     uint64         `json:"seed"`
 	OK       bool           `json:"ok"`
 	Class    string         `json:"class,omitempty"`
@@ -221,6 +222,7 @@ func WorkerMain(t *testing.T, harnesses map[string]HarnessFunc) {
 			break
 		}
 		rec := runOne(i, SeedFor(*flagBase, i), nil, int(i-a) < *flagSamples)
+		rec.First = a
 		emit(rec)
 		if rec.Infra != "" {
 			// the process may hold leaked goroutines after a bubble panic: let the supervisor restart us
